@@ -30,6 +30,16 @@ COMPOSITIONS = [
     ['carbon_dioxide', 'methane'],
 ]
 
+# compositions used for the classes that LIST a tracked compound they are released without (m0[j] == 0,
+# `diss_indices[j]` False): e.g. the package's own oxygen bubble ['oxygen','nitrogen','argon'] with yk = [1,0,0]
+STRIP_COMPOSITIONS = [
+    ['oxygen', 'nitrogen', 'argon'],
+    ['oxygen', 'nitrogen'],
+    ['methane', 'ethane'],
+    ['methane', 'ethane', 'propane'],
+    ['carbon_dioxide', 'methane'],
+]
+
 
 # ---------------------------------------------------------------------------
 # specs
@@ -51,10 +61,11 @@ def random_profile_spec(rng, chem_names, background):
     return spec
 
 
-def random_particle_spec(rng, soluble, composition):
+def random_particle_spec(rng, soluble, composition, zero=()):
+    """`zero`: indices of listed compounds the class is released without (mole fraction exactly 0)"""
     if soluble:
         nc = len(composition)
-        yk = [rng.uniform(0.1, 1.) for _ in range(nc)]
+        yk = [0. if k in zero else rng.uniform(0.1, 1.) for k in range(nc)]
         tot = sum(yk)
         return {
             'soluble': True, 'composition': list(composition), 'fp_type': rng.choice([0, 0, 1]) if composition[0] != 'oxygen' else 0,
@@ -70,21 +81,42 @@ def random_particle_spec(rng, soluble, composition):
     }
 
 
-def random_spec(rng, n_sol, n_inert, background, composition=None):
-    """a scenario with `n_sol` soluble and `n_inert` inert particle classes in random order"""
+def random_spec(rng, n_sol, n_inert, background, composition=None, strip=None):
+    """a scenario with `n_sol` soluble and `n_inert` inert particle classes in random order.
+
+    strip = 'alone' | 'mixed': the first soluble class LISTS one or more tracked compounds it is released without
+    (yk = 0, so m0[j] == 0 and `diss_indices[j]` is False) — it strips those gases from the plume water.  With
+    'alone' it is the only soluble class; with 'mixed' (n_sol >= 2) the other soluble classes contain every
+    compound, so one of them dissolves what the first one strips.  Recorded in spec['strip']."""
     if composition is None:
-        composition = rng.choice(COMPOSITIONS)
+        composition = rng.choice(STRIP_COMPOSITIONS if strip else COMPOSITIONS)
     kinds = [True] * n_sol + [False] * n_inert
     rng.shuffle(kinds)
     chem_names = list(composition) if n_sol else []
     prof = random_profile_spec(rng, chem_names, background)
     z0 = rng.uniform(0.25, 0.8) * prof['H']
-    return {
+    zero = ()
+    if strip:
+        nc = len(composition)
+        nz = rng.randint(1, nc - 1)
+        zero = tuple(sorted(rng.sample(range(nc), nz)))
+    particles = []
+    first_sol = None
+    for i, k in enumerate(kinds):
+        if k and strip and first_sol is None:
+            first_sol = i
+            particles.append(random_particle_spec(rng, True, composition, zero=zero))
+        else:
+            particles.append(random_particle_spec(rng, k, composition))
+    spec = {
         'profile': prof,
         'z0': z0,
         'R': rng.uniform(0.05, 0.3),
-        'particles': [random_particle_spec(rng, k, composition) for k in kinds],
+        'particles': particles,
     }
+    if strip:
+        spec['strip'] = {'mode': strip, 'class': first_sol, 'zero': list(zero)}
+    return spec
 
 
 # ---------------------------------------------------------------------------
